@@ -182,6 +182,10 @@ pub struct Wire {
     pub wb_inside_seen: u64,
     /// sweep: a would-block burst of the given length at exactly this unit position
     pub forced_wb: Option<(usize, u32)>,
+    /// serial port: what the sender writes stays in its output queue until a `flush`
+    /// succeeds; the receiving side sees only flushed bytes (an OS-buffered port)
+    pub hold_until_flush: bool,
+    pub flushed_len: usize,
     /// a receiver poll is in progress (set by the harness around the call)
     pub in_poll: bool,
     /// bytes discarded by `clear(Input)` calls made during polls
@@ -227,6 +231,8 @@ impl Wire {
             frames_this_poll: 0,
             wb_inside_seen: 0,
             forced_wb: None,
+            hold_until_flush: false,
+            flushed_len: 0,
             in_poll: false,
             cleared_units: 0,
             tx: TxPolicy::benign(),
@@ -257,7 +263,8 @@ impl Wire {
     }
 
     pub fn in_flight(&self) -> usize {
-        self.len() - self.cursor
+        let visible = if self.hold_until_flush { self.flushed_len.min(self.len()) } else { self.len() };
+        visible.saturating_sub(self.cursor)
     }
 
     pub fn at_boundary(&self) -> bool {
@@ -969,6 +976,7 @@ impl io::Write for Dev {
         }
         w.tx_flush_ok_after_last_write = true;
         w.unflushed = 0;
+        w.flushed_len = w.bytes.len();
         drop(w);
         self.sim.event(EV_TX, 11, 0, || format!("{}.serial.flush -> Ok", self.name));
         Ok(())
